@@ -29,6 +29,32 @@ func calleeObj(c *ssa.CallCommon) *types.Func {
 	return nil
 }
 
+var ioAlias = map[string]string{
+	"io.(ByteReader).ReadByte":      "bytes.(Reader).ReadByte",
+	"io.(Reader).Read":              "bytes.(Reader).Read",
+	"io.(ByteScanner).UnreadByte":   "bytes.(Reader).UnreadByte",
+	"io.(ByteWriter).WriteByte":     "bytes.(Buffer).WriteByte",
+	"io.(Writer).Write":             "bytes.(Buffer).Write",
+	"io.(StringWriter).WriteString": "bytes.(Buffer).WriteString",
+}
+
+// resolveCallee: the declared function a call ends up in, looking through the wrappers go/ssa makes
+// for method values (`f := x.m; f()`) and method expressions.
+func resolveCallee(c *ssa.CallCommon) *ssa.Function {
+	f := c.StaticCallee()
+	if f == nil {
+		return nil
+	}
+	if f.Synthetic != "" && (strings.HasSuffix(f.Name(), "$bound") || strings.HasSuffix(f.Name(), "$thunk")) {
+		if o, ok := f.Object().(*types.Func); ok && f.Prog != nil {
+			if g := f.Prog.FuncValue(o); g != nil {
+				return g
+			}
+		}
+	}
+	return f
+}
+
 // funcID renders a types.Func as "pkgpath.(Recv).Name" (Recv without pointer star) or "pkgpath.Name".
 func funcID(o *types.Func) string {
 	if o == nil {
@@ -46,7 +72,13 @@ func funcID(o *types.Func) string {
 		}
 		switch n := t.(type) {
 		case *types.Named:
-			return pkg + ".(" + n.Obj().Name() + ")." + o.Name()
+			id := pkg + ".(" + n.Obj().Name() + ")." + o.Name()
+			// a byte source or sink used through one of io's one-method interfaces is the same primitive
+			// as the concrete reader/buffer the codec uses (`func bReadU8(r byteSource, …)`)
+			if a, ok := ioAlias[id]; ok {
+				return a
+			}
+			return id
 		case *types.Interface:
 			return pkg + ".(interface)." + o.Name()
 		}
@@ -564,6 +596,14 @@ func normFact(f EdgeFact) (cmpNorm, bool) {
 			continue
 		}
 		break
+	}
+	// `if ok = a == b; ok {` with ok a named result kept in memory: the test reads back what was just stored
+	if ld, isLoad := c.(*ssa.UnOp); isLoad && ld.Op == token.MUL {
+		if rs := resolveSpill(c); rs != c {
+			if _, isCmp := rs.(*ssa.BinOp); isCmp {
+				c = rs
+			}
+		}
 	}
 	b, ok := c.(*ssa.BinOp)
 	if !ok {
